@@ -138,13 +138,18 @@ def check_case(ctx, case, record=True):
                 # the returned physical plan must be a different object graph
                 if res[0] is w.plan or res[0].graph is w.plan.graph:
                     ctx.violation(case, tag + "dry run returned the caller's own Plan/graph object")
-                if act["cfg"].get("rseed", 0) % 3 == 0:
-                    # the (plan, node) pair a dry run returns can be handed to render as it is
+                if act["cfg"].get("rseed", 0) % 2 == 0:
+                    # the (plan, node) pair a dry run returns can be handed to render as it is; the plan in the
+                    # pair is then the caller's plan, and render must leave it as it was
+                    snap_res = snapshot(res[0], None)
                     try:
                         uberjob.render(res, format="svg")
                     except Exception:
                         if record:  # not a modification: outside this statement, but visible in the evidence
                             ctx.count("render_of_dry_run_result_raised")
+                    d = diff_snap(snap_res, snapshot(res[0], None))
+                    if d:
+                        ctx.violation(case, tag + f"render((plan, node)) of a dry run's result modified the plan it was given: {d}")
         elif k == "render":
             kw = {"format": "svg"}
             if act["registry"]:
@@ -153,8 +158,13 @@ def check_case(ctx, case, record=True):
                 kw["level"] = act["level"]
             if act["predicate"]:
                 kw["predicate"] = lambda u, d: type(u).__name__ != "Literal"
+            target = w.plan
+            if act["cfg"].get("rseed", 0) % 2 == 0:
+                # the pair form (plan, output node or None)
+                out_obj, _ = w.output_obj(act["output"]) if act.get("output") is not None else (None, None)
+                target = (w.plan, out_obj if isinstance(out_obj, uberjob.graph.Node) else None)
             try:
-                uberjob.render(w.plan, **kw)
+                uberjob.render(target, **kw)
             except Exception:
                 if record:  # whether render succeeds is outside this statement (it must not modify anything)
                     ctx.count("render_raised")
